@@ -235,5 +235,62 @@ def run(src: Path, ex: Any) -> str:
     except Exception as e:  # noqa
         fail("trailers", f"{type(e).__name__}: {e}")
 
+    # ---- the contents the HTTP/2 glue passes on: Request(...) / Body(...) / send_headers(...) -----------------------
+    try:
+        if h2tree is None:
+            raise Unsupported("protocol/h2.py not parsed")
+        fn = find_def(h2tree, "H2Protocol", "_create_stream")
+        reqs = [c for c in ast.walk(fn) if isinstance(c, ast.Call) and ast.unparse(c.func) == "Request"]  # type: ignore
+        if len(reqs) != 1 or reqs[0].args:
+            raise Unsupported("not exactly one `Request(<keywords>)` in H2Protocol._create_stream")
+        rargs = [f"{k.arg}={ast.unparse(k.value)}" for k in reqs[0].keywords]
+        out.append("def h2RequestArgs : List String := [" + ", ".join(ex.q(a) for a in rargs) + "]   -- the Request event `_create_stream` hands the new stream")
+        # the header loop: which value is bound to `method` / `raw_path`
+        loops = [n for n in ast.walk(fn) if isinstance(n, ast.For) and ast.unparse(n.iter) == "request.headers"]  # type: ignore
+        if len(loops) != 1 or ast.unparse(loops[0].target) != "(name, value)":
+            raise Unsupported("no single `for name, value in request.headers:` loop in _create_stream")
+        binds = []
+        node = loops[0].body[0] if len(loops[0].body) == 1 else None
+        while isinstance(node, ast.If):
+            first = node.body[0]
+            if not isinstance(first, ast.Assign):
+                raise Unsupported("a branch of the header loop does not start with an assignment")
+            binds.append(f"{ast.unparse(node.test)}: {ast.unparse(first)}")
+            node = node.orelse[0] if len(node.orelse) == 1 else None
+        out.append("def h2HeaderLoop : List String := [" + ", ".join(ex.q(b) for b in binds) + "]   -- `for name, value in request.headers:` of _create_stream")
+        fn = find_def(h2tree, "H2Protocol", "_handle_events")
+        bodies = [c for c in ast.walk(fn) if isinstance(c, ast.Call) and ast.unparse(c.func) == "Body"]  # type: ignore
+        if len(bodies) != 1 or bodies[0].args:
+            raise Unsupported("not exactly one `Body(<keywords>)` in H2Protocol._handle_events")
+        out.append("def dataBodyArgs : List String := [" + ", ".join(ex.q(f"{k.arg}={ast.unparse(k.value)}") for k in bodies[0].keywords)
+                   + "]   -- the Body event handed to the stream for a DataReceived")
+        fn = find_def(h2tree, "H2Protocol", "stream_send")
+        branch = None
+        for n in ast.walk(fn):  # type: ignore
+            if isinstance(n, ast.If) and ast.unparse(n.test) == "isinstance(event, (InformationalResponse, Response))":
+                branch = n
+        if branch is None:
+            raise Unsupported("no `isinstance(event, (InformationalResponse, Response))` branch in H2Protocol.stream_send")
+        calls = [c for st in branch.body for c in ast.walk(st) if isinstance(c, ast.Call) and ast.unparse(c.func).startswith("self.connection.")]
+        if len(calls) != 1 or ast.unparse(calls[0].func) != "self.connection.send_headers" or calls[0].keywords:
+            raise Unsupported("the response branch is not one `self.connection.send_headers(stream_id, headers)` call")
+        out.append("def h2HeadArgs : List String := [" + ", ".join(ex.q(ast.unparse(a)) for a in calls[0].args) + "]   -- send_headers arguments for a response head")
+        fn = find_def(h2tree, "H2Protocol", "_send_data")
+        pops = [c for c in ast.walk(fn) if isinstance(c, ast.Call) and ast.unparse(c.func).endswith(".pop") and "stream_buffers[stream_id]" in ast.unparse(c.func)]  # type: ignore
+        sends = [c for c in ast.walk(fn) if isinstance(c, ast.Call) and ast.unparse(c.func) == "self.connection.send_data"]  # type: ignore
+        assign = [n for n in ast.walk(fn) if isinstance(n, ast.Assign) and isinstance(n.value, ast.Await) and n.value.value in pops]  # type: ignore
+        if len(pops) != 1 or len(sends) != 1 or len(assign) != 1:
+            raise Unsupported("_send_data is not `data = await …pop(chunk_size)` … `send_data(stream_id, data)`")
+        out.append("def sendDataArgs : List String := [" + ", ".join(ex.q(x) for x in [ast.unparse(assign[0].targets[0])] + [ast.unparse(a) for a in sends[0].args]) + "]   -- what is popped is what is sent")
+        sb = find_def(h2tree, "StreamBuffer", "pop")
+        sp = find_def(h2tree, "StreamBuffer", "push")
+        popsrc = [ast.unparse(st) for st in sb.body[:3]]  # type: ignore
+        pushsrc = [ast.unparse(st) for st in sp.body if "extend" in ast.unparse(st)]  # type: ignore
+        out.append("def bufferFifo : List String := [" + ", ".join(ex.q(x) for x in pushsrc + popsrc) + "]   -- push extends at the back, pop takes from the front")
+    except Unsupported as e:
+        fail("h2Contents", str(e))
+    except Exception as e:  # noqa
+        fail("h2Contents", f"{type(e).__name__}: {e}")
+
     out += ["end HC.Extracted.ReqGlue", ""]
     return "\n".join(out)
